@@ -378,9 +378,9 @@ func c01Matrix() []c01cell {
 	// D. name shapes, at every position that becomes a Go identifier or a string literal
 	names := []string{"a", "user_id", "userId", "UserID", "X-Request-Uuid", "api.url", "api-url", "id", "ids", "Id", "kid", "x", "type", "func", "range", "error", "string",
 		"Client", "API", "Maybe", "Nullable", "Just", "ErrParseParam", "LogError", "a1", "v2", "snake_case_name", "kebab-case-name", "dot.ted.name", "UPPER", "mixedCASEName", "with space",
-		"2fa", "_lead", "trail_", "a__b", "é", "名前", "a$b", "a/b", "quote\"d", "back\\slash", "q", "r", "w", "params", "response", "request", "err", "ok", "zero", "vOpt", "hs", "query", "header", "body", "ctx", "h", "p", "s", "c", "b"}
+		"Uuid", "valid", "Userid", "Kids", "2fa", "_lead", "trail_", "a__b", "é", "名前", "a$b", "a/b", "quote\"d", "back\\slash", "q", "r", "w", "params", "response", "request", "err", "ok", "zero", "vOpt", "hs", "query", "header", "body", "ctx", "h", "p", "s", "c", "b"}
 	for _, n := range names {
-		for _, pos := range []string{"query", "header", "pathvar", "property", "component", "operationId", "resp-header", "path-literal", "component-response", "component-param", "component-body", "component-header", "security-scheme", "addl-key"} {
+		for _, pos := range []string{"query", "header", "pathvar", "property", "component", "component-primitive", "alias-of-primitive", "operationId", "resp-header", "path-literal", "component-response", "component-param", "component-body", "component-header", "security-scheme", "addl-key"} {
 			sp := c01Base()
 			o := &dialect.Op{Method: "GET", Responses: okResp()}
 			raw := "/x"
@@ -405,6 +405,24 @@ func c01Matrix() []c01cell {
 				}
 				sp.CompSchemas = []dialect.Prop{{Name: n, Schema: objAB()}}
 				o.Responses = []dialect.Response{{Status: "200", Content: "application/json", Schema: &dialect.Schema{Ref: n}}}
+			case "component-primitive", "alias-of-primitive":
+				// a primitive component (and an alias of it) used as parameter schemas: the accessor method of the named type
+				// is declared in components.go and called in handler.go and client.go
+				if strings.ContainsAny(n, " /\"\\$") || n == "é" || n == "名前" {
+					continue
+				}
+				sp.CompSchemas = []dialect.Prop{{Name: n, Schema: &dialect.Schema{Type: "string"}}}
+				use := n
+				if pos == "alias-of-primitive" {
+					if n == "ZzAlias" {
+						continue
+					}
+					sp.CompSchemas = append(sp.CompSchemas, dialect.Prop{Name: "ZzAlias", Schema: &dialect.Schema{Ref: n}})
+					use = "ZzAlias"
+				}
+				raw = "/x/{v}"
+				o.Params = []dialect.Param{{Name: "v", In: "path", Required: true, Schema: &dialect.Schema{Ref: use}},
+					{Name: "q", In: "query", Schema: &dialect.Schema{Type: "array", Items: &dialect.Schema{Ref: use}}}}
 			case "operationId":
 				o.ID = n
 			case "resp-header":
